@@ -843,14 +843,52 @@ class SampleRun(object):
         raise AnalysisError('line %d: call form outside the modelled subset' % e.lineno)
 
 
+def _construction_only_methods(repo, ci):
+    """Private methods of the class that can only run while ``__init__`` runs: every occurrence of the name anywhere in
+    the analysed tree is the callee of a ``self.<name>(...)`` call located in ``__init__`` of the class or in another
+    method of this set (and the name is not overridden / re-bound).  Such a method is a piece of the constructor."""
+    cand = set(n for n in ci.methods if n.startswith('_') and not (n.startswith('__') and n.endswith('__')))
+    uses = dict((n, []) for n in cand)          # name -> [(module, enclosing function node, is a self-call)]
+    for m in repo.all_internal_modules():
+        for node in ast.walk(m.tree):
+            nm = None
+            if isinstance(node, ast.Attribute) and node.attr in cand:
+                nm = node.attr
+                par = m.parents.get(node)
+                selfcall = isinstance(par, ast.Call) and par.func is node and isinstance(node.value, ast.Name) and node.value.id == 'self' \
+                    and isinstance(node.ctx, ast.Load)
+                uses[nm].append((m, m.enclosing_function(node), selfcall))
+            elif isinstance(node, ast.Name) and node.id in cand:
+                uses[node.id].append((m, None, False))
+            elif isinstance(node, ast.Constant) and isinstance(node.value, str) and node.value in cand:
+                uses[node.value].append((m, None, False))
+            elif isinstance(node, (ast.FunctionDef, ast.AsyncFunctionDef)) and node.name in cand and node is not ci.methods[node.name].node:
+                uses[node.name].append((m, None, False))      # another definition of the name (override / namesake)
+    ok = set(n for n in cand if uses[n] and all(sc for _, _, sc in uses[n]))
+    changed = True
+    while changed:
+        changed = False
+        allowed = set([ci.methods['__init__'].node] if '__init__' in ci.methods else []) | set(ci.methods[n].node for n in ok)
+        for n in sorted(ok):
+            if not all(m is ci.mod and fn in allowed for m, fn, _ in uses[n]):
+                ok.discard(n)
+                changed = True
+    return ok
+
+
 def check_route_immutable(rep, route):
     repo = rep.repo
     # ---- R12.b -----------------------------------------------------------
     br = route.cls('BoundRoute')
+    ctor_only = _construction_only_methods(repo, br)
     for name, m in sorted(br.methods.items()):
         if name == '__init__':
             continue
         effs = [e for e in effects.effects_in(m.node) if e.root == 'self']
+        if effs and name in ctor_only:
+            rep.ok('R12.b', fkey(m), 'writes self, but is a private part of the constructor: every mention of %s in the analysed tree is a '
+                                     'self.%s(...) call from __init__ (or from another such part)' % (name, name), route, m.node)
+            continue
         rep.check('R12.b', fkey(m), not effs, 'does not write self' if not effs else
                   'BoundRoute.%s writes the shared route object after construction: %s' % (name, [short(e.node) for e in effs]),
                   route, effs[0].node if effs else m.node)
